@@ -479,6 +479,22 @@ func checkCase(c *Case, count bool) error {
 				cc.Close()
 			}
 		}},
+		read{"read-only transactions and View asked about verbs other than GET/POST/PUT/DELETE (first such question on their tree)", func() {
+			old.Has("PATCH", "/static")
+			old.Route("MKCOL", "/static")
+			_ = f.View(func(txn *fox.Txn) error {
+				txn.Has("PROPFIND", "/static")
+				txn.Route("BREW", "/third/pot")
+				txn.Has("LOCK", "/r/{id}/x")
+				for range txn.Iter().Routes(slices.Values([]string{"PATCH", "BREW"}), "/static") {
+				}
+				return nil
+			})
+			rtx := f.Txn(false)
+			rtx.Route("HEAD", "/static")
+			rtx.Snapshot().Has("TRACE", "/static")
+			rtx.Abort()
+		}},
 		read{"iterator taken before the tree grew: Reverse/All", func() {
 			for range oldIt.Reverse(oldIt.Methods(), host, "/r/1/x") {
 			}
